@@ -43,6 +43,35 @@ Definition tkz_cols (ts : list rtok) : list Z :=
   | t :: rest => rt_begin t :: cols_from t (rt_begin t) rest
   end.
 
+(** --- what "the true column" means: byte strings, line starts, hidden newlines --- *)
+Definition newline : Ascii.ascii := Ascii.ascii_of_nat 10.
+Definition is_nl (buf : list Ascii.ascii) (p : nat) : bool :=
+  match nth_error buf p with Some c => Ascii.eqb c newline | None => false end.
+Definition nl_at (buf : list Ascii.ascii) (p : Z) : bool := (0 <=? p)%Z && is_nl buf (Z.to_nat p).
+(** offset of the first byte of the line that contains offset [p] *)
+Fixpoint line_start (buf : list Ascii.ascii) (p : nat) : nat :=
+  match p with O => O | S q => if is_nl buf q then S q else line_start buf q end.
+Definition line_start_z (buf : list Ascii.ascii) (p : Z) : Z := Z.of_nat (line_start buf (Z.to_nat p)).
+
+(** end offset of the last EOL token among the first [k] tokens ([E] if there is none) *)
+Fixpoint eol_end_from (E : Z) (ts : list rtok) (k : nat) : Z :=
+  match k, ts with
+  | O, _ => E
+  | _, [] => E
+  | S k', t :: r => eol_end_from (if rt_eol t then (rt_begin t + rt_len t)%Z else E) r k'
+  end.
+Definition last_eol_end (ts : list rtok) (k : nat) : Z := eol_end_from 0%Z ts k.
+
+(** a token stream scanned from [buf]: tokens do not overlap and come in order, an EOL token is one
+    newline byte *)
+Definition wf_stream (buf : list Ascii.ascii) (ts : list rtok) : Prop :=
+  (forall i j ti tj, (i < j)%nat -> nth_error ts i = Some ti -> nth_error ts j = Some tj ->
+                     (rt_begin ti + rt_len ti <= rt_begin tj)%Z)
+  /\
+  (forall i t, nth_error ts i = Some t ->
+               (0 <= rt_begin t)%Z /\
+               (rt_eol t = true -> rt_len t = 1%Z /\ nl_at buf (rt_begin t) = true)).
+
 (* ================================================================= Part 2: the offside parser *)
 
 Inductive tok :=
@@ -355,3 +384,282 @@ Definition fuel_for (ts : list ptok) : nat := 16 + 10 * List.length ts.
 
 Definition map_cols (rho : nat -> nat) (ts : list ptok) : list ptok :=
   map (fun p => (fst p, rho (snd p))) ts.
+
+(* ================================================================= Part 3: laid-out syntax *)
+
+(** The syntax tree decorated with every layout choice. Columns of tokens that are first on their line,
+    and of the first token of a same-line body, are explicit; the number of extra EOL tokens after a line
+    end ([blanks]: blank lines, lines holding only comments, ...) is explicit. Every other token gets the
+    arbitrary column [inner] (comments and blanks inside a line only move such tokens).
+
+    one-line expressions (conditions, match targets, the parts of a one-line if):
+      [sx] = application (operator application)*  over atoms *)
+Definition sxt := (nat * list nat)%type.                    (* f a b *)
+Definition sx := (sxt * list (nat * sxt))%type.             (* t0 op1 t1 op2 t2 *)
+
+Inductive lpat :=
+| PCase (cn : nat) (v : option nat)                        (* | Case ->   | Case v -> *)
+| PDef.                                                    (* | _ -> *)
+
+Inductive latom :=
+| LA (a : nat)
+| LS (a : nat)
+| LLam (ps : list nat) (b : lbody) (cl : option (nat * nat))
+      (* (fun ps -> body)   cl = Some (blanks, column): the ')' stands on a line of its own *)
+with latoms :=
+| ANil
+| ACons (col : nat) (a : latom) (l : latoms)
+with lterm :=
+| LApp (a : latom) (l : latoms)
+| LIf1 (c t e : sx)                                        (* if c then t else e   on one line *)
+| LIf (c : sx) (b1 : nat) (t : lblock) (r : lifrest)       (* if c then EOL block ... *)
+| LMatch (tg : sx) (b0 : nat) (arms : larms)
+with lifrest :=
+| IElse (bl : nat) (ecol : nat) (b : lbody)                (* else at column ecol, body on the same or next line *)
+| IElif (bl : nat) (ecol : nat) (c : sx) (b1 : nat) (t : lblock) (r : lifrest)
+with lbody :=
+| BInline (b : lblock)                                     (* starts on the same line, at its own column *)
+| BNext (bl : nat) (b : lblock)                            (* starts on a later line *)
+with lexpr :=
+| LT (t : lterm)
+| LOp (a : latom) (l : latoms) (brk : option (nat * nat)) (o : nat) (e : lexpr)
+      (* application, then an operator (brk = Some (blanks, column): on a line of its own), then the rest *)
+with lstmt :=
+| LLet (x : nat) (nl : option (nat * nat)) (e : lexpr)     (* nl = Some (blanks, column): right-hand side on a later line *)
+| LLetFn (f : nat) (p : nat) (ps : list nat) (b : lbody)
+| LExpr (e : lexpr)
+with lblock :=
+| LB (col : nat) (s : lstmt) (r : lrest)
+with lrest :=
+| LNil
+| LCons (bl : nat) (col : nat) (s : lstmt) (r : lrest)
+with larms :=
+| MLast (bcol : nat) (p : lpat) (b : lbody)
+| MCons (bcol : nat) (p : lpat) (b : lbody) (bl : nat) (r : larms).
+
+Definition lprog := list (nat * nat * lstmt).               (* blanks before, column, root let *)
+
+Section Render.
+Variable inner : nat.
+
+Definition eols (k : nat) : list ptok := repeat (TEOL, inner) k.
+Definition nl (bl : nat) : list ptok := (TEOL, inner) :: eols bl.
+Definition atoks (l : list nat) : list ptok := map (fun a => (TA a, inner)) l.
+
+Definition r_sxt (c : nat) (t : sxt) : list ptok := (TA (fst t), c) :: atoks (snd t).
+Fixpoint r_sxrest (l : list (nat * sxt)) : list ptok :=
+  match l with [] => [] | (o, t) :: l' => (TOP o, inner) :: r_sxt inner t ++ r_sxrest l' end.
+Definition r_sx (c : nat) (s : sx) : list ptok := r_sxt c (fst s) ++ r_sxrest (snd s).
+
+Definition r_pat (p : lpat) : list ptok :=
+  match p with
+  | PCase cn None => [(TA cn, inner)]
+  | PCase cn (Some v) => [(TA cn, inner); (TA v, inner)]
+  | PDef => [(TUS, inner)]
+  end.
+Definition r_close (cl : option (nat * nat)) : list ptok :=
+  match cl with None => [(TRP, inner)] | Some (bl, c) => nl bl ++ [(TRP, c)] end.
+Definition r_brk (brk : option (nat * nat)) (o : nat) : list ptok :=
+  match brk with None => [(TOP o, inner)] | Some (bl, c) => nl bl ++ [(TOP o, c)] end.
+
+Fixpoint r_atom (c : nat) (a : latom) : list ptok :=
+  match a with
+  | LA x => [(TA x, c)]
+  | LS x => [(TSTR x, c)]
+  | LLam ps b cl => (TLP, c) :: (TFUN, inner) :: atoks ps ++ (TARROW, inner) :: r_body b ++ r_close cl
+  end
+with r_atoms (l : latoms) : list ptok :=
+  match l with ANil => [] | ACons c a l' => r_atom c a ++ r_atoms l' end
+with r_term (c : nat) (t : lterm) : list ptok :=
+  match t with
+  | LApp a l => r_atom c a ++ r_atoms l
+  | LIf1 cd t e => (TIF, c) :: r_sx inner cd ++ (TTHEN, inner) :: r_sx inner t ++ (TELSE, inner) :: r_sx inner e
+  | LIf cd b1 t r => (TIF, c) :: r_sx inner cd ++ (TTHEN, inner) :: nl b1 ++ r_block t ++ r_ifrest r
+  | LMatch tg b0 arms => (TMATCH, c) :: r_sx inner tg ++ (TWITH, inner) :: nl b0 ++ r_arms arms
+  end
+with r_ifrest (r : lifrest) : list ptok :=
+  match r with
+  | IElse bl ec b => nl bl ++ (TELSE, ec) :: r_body b
+  | IElif bl ec cd b1 t r' => nl bl ++ (TELIF, ec) :: r_sx inner cd ++ (TTHEN, inner) :: nl b1 ++ r_block t ++ r_ifrest r'
+  end
+with r_body (b : lbody) : list ptok :=
+  match b with BInline b' => r_block b' | BNext bl b' => nl bl ++ r_block b' end
+with r_expr (c : nat) (e : lexpr) : list ptok :=
+  match e with
+  | LT t => r_term c t
+  | LOp a l brk o e' => r_atom c a ++ r_atoms l ++ r_brk brk o ++ r_expr inner e'
+  end
+with r_stmt (c : nat) (s : lstmt) : list ptok :=
+  match s with
+  | LLet x None e => (TLET, c) :: (TA x, inner) :: (TEQ, inner) :: r_expr inner e
+  | LLet x (Some (bl, c')) e => (TLET, c) :: (TA x, inner) :: (TEQ, inner) :: nl bl ++ r_expr c' e
+  | LLetFn f p ps b => (TLET, c) :: (TA f, inner) :: (TA p, inner) :: atoks ps ++ (TEQ, inner) :: r_body b
+  | LExpr e => r_expr c e
+  end
+with r_block (b : lblock) : list ptok :=
+  match b with LB c s r => r_stmt c s ++ r_rest r end
+with r_rest (r : lrest) : list ptok :=
+  match r with LNil => [] | LCons bl c s r' => nl bl ++ r_stmt c s ++ r_rest r' end
+with r_arms (a : larms) : list ptok :=
+  match a with
+  | MLast bc p b => (TBAR, bc) :: r_pat p ++ (TARROW, inner) :: r_body b
+  | MCons bc p b bl r => (TBAR, bc) :: r_pat p ++ (TARROW, inner) :: r_body b ++ nl bl ++ r_arms r
+  end.
+
+Fixpoint r_prog (p : lprog) : list ptok :=
+  match p with
+  | [] => []
+  | (bl, c, s) :: p' => eols bl ++ r_stmt c s ++ nl 0 ++ r_prog p'
+  end.
+End Render.
+
+(** erasure: the syntax tree without the layout *)
+Definition er_sxt (t : sxt) : expr := EApp (AT (TA (fst t)) :: map (fun a => AT (TA a)) (snd t)).
+Fixpoint er_sxrest (cur : expr) (l : list (nat * sxt)) : expr :=
+  match l with [] => cur | (o, t) :: l' => er_sxrest (EBin cur (TOP o) (er_sxt t)) l' end.
+Definition er_sx (s : sx) : expr := er_sxrest (er_sxt (fst s)) (snd s).
+Definition er_pat (p : lpat) : list tok :=
+  match p with PCase cn None => [TA cn] | PCase cn (Some v) => [TA cn; TA v] | PDef => [TUS] end.
+
+Fixpoint er_atom (a : latom) : atom :=
+  match a with
+  | LA x => AT (TA x)
+  | LS x => AT (TSTR x)
+  | LLam ps b _ => APar [EFun (map TA ps) (er_body b)]
+  end
+with er_atoms (l : latoms) : list atom :=
+  match l with ANil => [] | ACons _ a l' => er_atom a :: er_atoms l' end
+with er_term (t : lterm) : expr :=
+  match t with
+  | LApp a l => EApp (er_atom a :: er_atoms l)
+  | LIf1 c t e => EIf (er_sx c) (Blk [SExpr (er_sx t)]) (Some (Blk [SExpr (er_sx e)]))
+  | LIf c _ t r => EIf (er_sx c) (er_block t) (Some (er_ifrest r))
+  | LMatch tg _ arms => EMatch (er_sx tg) (er_arms arms)
+  end
+with er_ifrest (r : lifrest) : block :=
+  match r with
+  | IElse _ _ b => er_body b
+  | IElif _ _ c _ t r' => Blk [SExpr (EIf (er_sx c) (er_block t) (Some (er_ifrest r')))]
+  end
+with er_body (b : lbody) : block :=
+  match b with BInline b' => er_block b' | BNext _ b' => er_block b' end
+with er_expr (e : lexpr) : expr :=
+  match e with
+  | LT t => er_term t
+  | LOp a l _ o e' => er_cont (EApp (er_atom a :: er_atoms l)) o e'
+  end
+with er_cont (cur : expr) (o : nat) (e : lexpr) : expr :=
+  match e with
+  | LT t => EBin cur (TOP o) (er_term t)
+  | LOp a l _ o' e' => er_cont (EBin cur (TOP o) (EApp (er_atom a :: er_atoms l))) o' e'
+  end
+with er_stmt (s : lstmt) : stmt :=
+  match s with
+  | LLet x _ e => SLet [TA x] (er_expr e)
+  | LLetFn f p ps b => SLetFn (TA f :: TA p :: map TA ps) (er_body b)
+  | LExpr e => SExpr (er_expr e)
+  end
+with er_block (b : lblock) : block :=
+  match b with LB _ s r => Blk (er_stmt s :: er_rest r) end
+with er_rest (r : lrest) : list stmt :=
+  match r with LNil => [] | LCons _ _ s r' => er_stmt s :: er_rest r' end
+with er_arms (a : larms) : list rule :=
+  match a with
+  | MLast _ p b => [Rule (er_pat p) (er_body b)]
+  | MCons _ p b _ r => Rule (er_pat p) (er_body b) :: er_arms r
+  end.
+
+Definition er_prog (p : lprog) : list root := map (fun x => RLet (er_stmt (snd x))) p.
+
+(** --- which layouts keep the block structure --- *)
+Definition bcol (b : lblock) : nat := match b with LB c _ _ => c end.
+Definition body_col (b : lbody) : nat := match b with BInline b' => bcol b' | BNext _ b' => bcol b' end.
+Fixpoint ifrest_bd (r : lifrest) : nat :=
+  match r with IElse _ _ b => body_col b | IElif _ _ _ _ _ r' => ifrest_bd r' end.
+Fixpoint arms_bd (a : larms) : nat :=
+  match a with MLast _ _ b => body_col b | MCons _ _ _ _ r => arms_bd r end.
+
+(** the column of the outermost block that is still open where the construct ends: the next line must
+    stay strictly left of it (None: the construct ends with an atom) *)
+Definition term_bd (t : lterm) : option nat :=
+  match t with
+  | LApp _ _ => None | LIf1 _ _ _ => None
+  | LIf _ _ _ r => Some (ifrest_bd r)
+  | LMatch _ _ arms => Some (arms_bd arms)
+  end.
+Fixpoint expr_bd (e : lexpr) : option nat :=
+  match e with LT t => term_bd t | LOp _ _ _ _ e' => expr_bd e' end.
+Definition stmt_bd (s : lstmt) : option nat :=
+  match s with LLet _ _ e => expr_bd e | LLetFn _ _ _ b => Some (body_col b) | LExpr e => expr_bd e end.
+(** does the construct end with the arms of a match of its own block? (then a following '|' must be
+    left of that block) *)
+Definition term_tm (t : lterm) : bool := match t with LMatch _ _ _ => true | _ => false end.
+Fixpoint expr_tm (e : lexpr) : bool :=
+  match e with LT t => term_tm t | LOp _ _ _ _ e' => expr_tm e' end.
+Definition stmt_tm (s : lstmt) : bool :=
+  match s with LLet _ _ e => expr_tm e | LLetFn _ _ _ _ => false | LExpr e => expr_tm e end.
+
+Definition under (bd : option nat) (c : nat) : Prop := match bd with None => True | Some m => c < m end.
+Definition is_lexpr (s : lstmt) : Prop := match s with LExpr _ => True | _ => False end.
+Definition not_default (p : lpat) : Prop := match p with PDef => False | _ => True end.
+
+Fixpoint wf_atom (off : nat) (a : latom) : Prop :=
+  match a with
+  | LA _ => True | LS _ => True
+  | LLam _ b _ => wf_body off b
+  end
+with wf_atoms (off : nat) (l : latoms) : Prop :=
+  match l with ANil => True | ACons _ a l' => wf_atom off a /\ wf_atoms off l' end
+with wf_term (off : nat) (t : lterm) : Prop :=
+  match t with
+  | LApp a l => wf_atom off a /\ wf_atoms off l
+  | LIf1 _ _ _ => True
+  | LIf _ _ t r => wf_block off t /\ wf_ifrest off (bcol t) r
+  | LMatch _ _ arms =>
+      match arms with MLast _ p _ => not_default p | MCons _ p _ _ _ => not_default p end /\
+      wf_arms off None arms
+  end
+(* [prev]: the column of the block just before: 'else' / 'elif' must be strictly left of it *)
+with wf_ifrest (off : nat) (prev : nat) (r : lifrest) : Prop :=
+  match r with
+  | IElse _ ec b => ec < prev /\ wf_body off b
+  | IElif _ ec _ _ t r' => ec < prev /\ wf_block off t /\ wf_ifrest off (bcol t) r'
+  end
+with wf_body (off : nat) (b : lbody) : Prop :=
+  match b with BInline b' => wf_block off b' | BNext _ b' => wf_block off b' end
+with wf_expr (off : nat) (e : lexpr) : Prop :=
+  match e with
+  | LT t => wf_term off t
+  | LOp a l _ _ e' => wf_atom off a /\ wf_atoms off l /\ wf_expr off e'
+  end
+with wf_stmt (off : nat) (s : lstmt) : Prop :=
+  match s with
+  | LLet _ _ e => wf_expr off e
+  | LLetFn _ _ _ b => wf_body off b
+  | LExpr e => wf_expr off e
+  end
+(* a block is strictly right of the enclosing block; the constructs of its statements see its column *)
+with wf_block (off : nat) (b : lblock) : Prop :=
+  match b with LB c s r => off < c /\ wf_stmt c s /\ wf_rest c s r end
+(* a later statement: not left of the block, strictly left of everything the previous statement left open;
+   the last statement is an expression *)
+with wf_rest (c : nat) (prev : lstmt) (r : lrest) : Prop :=
+  match r with
+  | LNil => is_lexpr prev
+  | LCons _ c' s r' => c <= c' /\ under (stmt_bd prev) c' /\ wf_stmt c s /\ wf_rest c s r'
+  end
+(* an arm's bar is inside the offside line and strictly left of the previous arm's body;
+   a default arm is the last one *)
+with wf_arms (off : nat) (prev : option nat) (a : larms) : Prop :=
+  match a with
+  | MLast bc _ b => off <= bc /\ under prev bc /\ wf_body off b
+  | MCons bc p b _ r => off <= bc /\ under prev bc /\ not_default p /\ wf_body off b /\ wf_arms off (Some (body_col b)) r
+  end.
+
+(** root statements are lets; the next one starts left of everything the previous one left open *)
+Fixpoint wf_prog (prev : option nat) (p : lprog) : Prop :=
+  match p with
+  | [] => True
+  | (_, c, s) :: p' =>
+      under prev c /\ wf_stmt 0 s /\ match s with LExpr _ => False | _ => True end /\ wf_prog (stmt_bd s) p'
+  end.
